@@ -55,6 +55,27 @@ for it in range(N):
     bt.Backtest(bt.Strategy("s", [A.Or([bt.core.AlgoStack(shared, SpyA()), bt.core.AlgoStack(shared, SpyB())])]), data_, progress_bar=False).run(); evals += 1
     fa = [pd.Timestamp(x[1]) for x in LOG if x[0] == "a"]; fb = [pd.Timestamp(x[1]) for x in LOG if x[0] == "b"]
     if fa != want or fb != want: bad("scheduler-asked-twice-on-a-date-answers-the-same", scheduler=cls, first_branch=[str(d) for d in fa][:20], second_branch=[str(d) for d in fb][:20], expected=[str(d) for d in want][:20])
+    # one scheduler instance driven by hand against two successive data windows (walk-forward reuse: no deep copy in between): on each window it answers for
+    # that window's first / last date and boundaries, whatever it saw before
+    reused = getattr(A, cls)(run_on_first_date=f1, run_on_end_of_period=eop, run_on_last_date=fl)
+    for wn, idx_w in enumerate((idx, mkindex())):
+        days_w = list(idx_w); want_w = []
+        for k_, d in enumerate(days_w):
+            if k_ == 0: hit = f1
+            elif k_ == len(days_w) - 1: hit = fl
+            else: hit = KEY[cls](d) != KEY[cls](days_w[k_ + 1] if eop else days_w[k_ - 1])
+            if hit: want_w.append(d)
+        del LOG[:]
+        pre = days_w[0] - pd.DateOffset(days=1)      # the synthetic pre-start row a Backtest puts in front of the data; the strategy is updated on it and not run
+        full = pd.DatetimeIndex([pre]).append(idx_w)
+        sw = bt.Strategy("w%d" % wn, [reused, Spy()]); sw.setup(pd.DataFrame({"a": 100.0 + np.arange(len(full))}, index=full)); sw.update(pre)
+        raised = None
+        try:
+            for d in days_w: sw.update(d); sw.run()
+        except Exception as e_: raised = repr(e_)[:200]
+        evals += 1
+        got_w = [pd.Timestamp(x) for x in LOG] if raised is None else ["raised " + raised]
+        if got_w != want_w: bad("scheduler-instance-reused-on-a-second-data-window-answers-for-that-window", scheduler=cls, first=f1, end_of_period=eop, last=fl, window=wn, index=[str(d) for d in days_w][:40], fired=[str(d) for d in got_w][:40], expected=[str(d) for d in want_w][:40])
     # counting and date schedulers
     k = int(rs.randint(0, n + 2))
     got = fired(A.RunAfterDays(k), idx); evals += 1
@@ -75,4 +96,4 @@ for it in range(N):
     if it < 2: samples.append(dict(scheduler=cls, rows=n, fired=len(want)))
 print("JSON:" + json.dumps(dict(evaluations=evals, distinct=len(distinct), failures=fails[:5], samples=samples,
       rule="six families of date indices (year ends, business days, 6-hourly stamps over a leap day, one / two rows, sparse, daily) with random gaps; each calendar scheduler with random flags and each counting / date scheduler with random parameters placed before a recording algo in a real Backtest; fired dates compared with the reference (period keys: calendar day, ISO year-week, year-month, year-quarter, year); distinct = distinct (scheduler, flags, tiny index)",
-      bound="%d random indices, six runs each" % N)))
+      bound="%d random indices, eight runs each (two of them one scheduler instance driven by hand over two successive windows)" % N)))
